@@ -56,6 +56,27 @@ check("C05",
       "last definition winning.",
       DEC_NOTE, "DESIGN.md section 5, C05")
 
+QRY_NOTE = ("Trusts TLC and the projections of harness/decquery.py; the unfolding is judged against the tables the parser "
+            "itself reports through list_decay_modes / build_decay_chains(stable = all daughters), so a table-reading defect "
+            "is left to C01; inputs are acyclic table sets (TLC re-checks acyclicity of every case).")
+check("C09",
+      "TLA+ recursive unfolding operator ChainEntries (spec/DecParse.tla) with TLC-checked lemmas; chains recorded from the real "
+      "build_decay_chains validated by TLC (spec/DecQuery.tla JudgeC09)",
+      "TLC checks structural lemmas of ChainEntries on every acyclic table set of the bounded universe (root entries = lines, "
+      "everything stable => nothing unfolded, a daughter is unfolded iff it has a table and is not in S). For table sets of that "
+      "universe, simulated larger ones and every eligible mother of the shipped .dec files, with stable sets (empty, all daughters, "
+      "single daughters, random subsets), the chain returned by the real code is judged by TLC to equal ChainEntries over the "
+      "observed tables, and a missing table must raise DecayNotFound.",
+      QRY_NOTE, "DESIGN.md section 5, C09")
+check("C10",
+      "TLA+ enumeration of path choices PathChoices / counting recursion NPaths (spec/DecParse.tla), TLC-checked to agree; "
+      "descriptors recorded from the real expand_decay_modes read back into trees and validated as a bag by TLC (JudgeC10)",
+      "TLC checks |PathChoices| = NPaths on every acyclic table set of the bounded universe (aliases, empty blocks, repeated "
+      "decaying daughters). For those table sets, simulated larger ones and every shipped-file mother below the path bound, every "
+      "descriptor returned by the real code is read back by bracket matching and TLC judges that the bag of trees (children "
+      "unordered) equals the bag of choices and that the length is the sum of products.",
+      QRY_NOTE, "DESIGN.md section 5, C10")
+
 ALL = [f"C{i:02d}" for i in range(1, 21)]
 
 
